@@ -194,8 +194,15 @@ fn seed_cache(kind: &CacheKind, seed: &JsonValue) {
 ///  "runs":[{"today":d,"avail":d,"force":bool,"lookups":[d..]}]}
 pub fn hist(case: &JsonValue) -> JsonValue {
     let truth = truth_of(case);
-    let dir = if case["cache"].as_str() == Some("csv") { Some(scratch_dir()) } else { None };
+    let ckind = case["cache"].as_str().unwrap_or("mem").to_string();
+    let dir = if ckind == "csv" || ckind == "csv-broken" { Some(scratch_dir()) } else { None };
     let kind = match &dir {
+        // "csv-broken": a cache directory that can not be created or written (it lies below a
+        // regular file): every cache write fails, every read finds nothing
+        Some(d) if ckind == "csv-broken" => {
+            std::fs::write(d.join("blocker"), b"x").unwrap();
+            CacheKind::Csv(d.join("blocker").join("cache"))
+        }
         Some(d) => CacheKind::Csv(d.clone()),
         None => CacheKind::Mem(acb::util::rc::RcRefCellT::new(HashMap::new())),
     };
